@@ -137,3 +137,6 @@ Proof.
     apply Z.eqb_eq in Ei1, Ej1. apply Z.geb_le in Ei2. split; [auto|]. split; [reflexivity|]. right. lia.
   - inversion E; subst. split; [auto|]. split; [reflexivity|]. left. split; reflexivity.
 Qed.
+
+Lemma collapse_prop_by_index : forall sp0 ep0 sp1 ep1 p, p = sp0 -> collapse_prop sp0 ep0 sp1 ep1 p = ep0.
+Proof. intros; subst. unfold collapse_prop. now rewrite Z.eqb_refl. Qed.
